@@ -336,8 +336,13 @@ func run(t *testing.T, tape *simrt.Tape) *hx.Outcome {
 					}
 				}
 				// give back everything this client still holds
-				for key, n := range mine {
-					for ; n > 0; n-- {
+				var held [][2]int
+				for key := range mine {
+					held = append(held, key)
+				}
+				sort.Slice(held, func(i, j int) bool { return held[i][0] < held[j][0] || held[i][0] == held[j][0] && held[i][1] < held[j][1] })
+				for _, key := range held {
+					for n := mine[key]; n > 0; n-- {
 						toc := images[key[0]].layers[key[1]].TOCDigest.String()
 						if rn, _, _ := layerNode(key[0], key[1], toc); rn != nil {
 							if count[key] == 1 {
